@@ -7,178 +7,211 @@
 #include "vf_handler.h"
 typedef unsigned long ul;
 typedef struct vf_kt KT;
-/* exact-size heap buffer like VF_BUF, but every length gets its own constant-size object: a symbolic-size malloc makes CBMC's
- * propositional reduction of in-place pointer writes explode (34 GB for rotate, len<=4); constant sizes keep the same bounds checks */
-#define XA_(T, n, k, MAX) ((k) < (MAX) && (n) == (k)) ? VF_ALLOC((k) * sizeof(T))
-#define XALLOC(T, n, MAX) ((T *)(XA_(T, n, 0, MAX) : XA_(T, n, 1, MAX) : XA_(T, n, 2, MAX) : XA_(T, n, 3, MAX) : XA_(T, n, 4, MAX) : XA_(T, n, 5, MAX) : XA_(T, n, 6, MAX) : \
-    XA_(T, n, 7, MAX) : XA_(T, n, 8, MAX) : XA_(T, n, 9, MAX) : XA_(T, n, 10, MAX) : XA_(T, n, 11, MAX) : XA_(T, n, 12, MAX) : VF_ALLOC((MAX) * sizeof(T))))
-#define BUF(T, name, n, MAX) VF_INPUT_ARR(T, name##_in, (MAX) + 1); VF_ASSUME((ul)(n) <= (ul)(MAX)); T *name = XALLOC(T, n, MAX); \
-    for (int vf_i_##name = 0; vf_i_##name < (MAX); ++vf_i_##name) if (vf_i_##name < (int)(n)) name[vf_i_##name] = name##_in[vf_i_##name]
-/* {key,tag} buffer: keys symbolic, tag = TAG0 + index (element identity) */
-#define KTBUF(name, n, MAX, TAG0) VF_INPUT_ARR(KT, name##_in, (MAX) + 1); VF_ASSUME((ul)(n) <= (ul)(MAX)); KT *name = XALLOC(KT, n, MAX); \
-    for (int vf_i_##name = 0; vf_i_##name <= (MAX); ++vf_i_##name) { name##_in[vf_i_##name].tag = (TAG0) + vf_i_##name; if (vf_i_##name < (int)(n)) name[vf_i_##name] = name##_in[vf_i_##name]; }
-/* output buffer of exactly n elements, contents indeterminate */
-#define OUTBUF(T, name, n, MAX) T *name = XALLOC(T, n, MAX)
+/* Buffers.  VF_BUF (one heap object of symbolic size) is not usable here: with in-place writes through pointers CBMC's formula for a
+ * symbolic-size object explodes (34 GB for rotate, len<=4).  Instead every harness declares its inputs first (IN / KTIN), then
+ * SPLITs on each symbolic length: `SPLIT(n, L) { ... }` runs the block once with `n` shadowed by a loop constant equal to the input
+ * n, so that symbolic execution sees constant-size exact-fit objects (MK / OUT: a one-past access is still an out-of-bounds failure)
+ * and concrete range ends.  All lengths 0..L are covered by the L+1 unwound iterations. */
+#define IN(T, name, MAX) VF_INPUT_ARR(T, name##_in, (MAX) + 1)
+/* {key,tag} input: keys symbolic, tag = TAG0 + index (element identity) */
+#define KTIN(name, MAX, TAG0) VF_INPUT_ARR(KT, name##_in, (MAX) + 1); for (int vf_i_##name = 0; vf_i_##name <= (MAX); ++vf_i_##name) name##_in[vf_i_##name].tag = (TAG0) + vf_i_##name
+#define SPLIT(n, L) for (int vf_c_##n = 0; vf_c_##n <= (L); ++vf_c_##n) if (vf_c_##n == (int)(n)) for (int vf_once_##n = 1, n = vf_c_##n; vf_once_##n; vf_once_##n = 0)
+/* exact-size heap copy of name_in[0..n) (n: a SPLIT constant) */
+#define MK(T, name, n, MAX) T *name = (T *)VF_ALLOC((ul)(n) * sizeof(T)); for (int vf_i_##name = 0; vf_i_##name < (MAX); ++vf_i_##name) if (vf_i_##name < (n)) name[vf_i_##name] = name##_in[vf_i_##name]
+/* output buffer of exactly n elements (n: a SPLIT constant), contents indeterminate */
+#define OUT(T, name, n) T *name = (T *)VF_ALLOC((ul)(n) * sizeof(T))
 #define LEN(n, L) VF_INPUT(unsigned char, n); VF_ASSUME(n <= (L))
-#define SEL(c, K) VF_INPUT(unsigned char, c); VF_ASSUME(c < (K))
+/* selector of a comparator / predicate (see driver.cpp): symbolic in [LO, HI] */
+#define SEL(c, LO, HI) VF_INPUT(unsigned char, c); VF_ASSUME(c >= (LO) && c <= (HI))
+/* the a % 3 comparator (c == 3) / predicate (p == 2) puts a 32-bit divider on every operand: those groups take their values from the
+ * window [-4, 4] (all remainders -2..2, equivalent-but-different values); every other comparator sees the full int range */
+#define WIN(on, arr, L, KEY) if (on) for (int vf_w = 0; vf_w <= (L); ++vf_w) VF_ASSUME(arr[vf_w] KEY >= -4 && arr[vf_w] KEY <= 4)
 #define FORK(k, L, n) for (int k = 0; k < (L); ++k) if (k < (int)(n))
 #define KTEQ(x, y) ((x).key == (y).key && (x).tag == (y).tag)
 
 /* the driver's comparators / predicates, restated */
-static _Bool lt(int c, int a, int b) { return c == 0 ? a < b : (c == 1 ? a > b : a % 3 < b % 3); }
+static _Bool lt(int c, int a, int b) { return c == 0 ? a < b : (c == 1 ? a > b : (c == 2 ? (a & 3) < (b & 3) : a % 3 < b % 3)); }
 static _Bool eqv(int c, int a, int b) { return !lt(c, a, b) && !lt(c, b, a); }
-static _Bool peq(int p, int a, int b) { return p == 0 ? a == b : a % 3 == b % 3; }
-static _Bool pred1(int p, int x) { return p == 0 ? x % 3 == 0 : x < 0; }
+static _Bool peq(int p, int a, int b) { return p == 0 ? a == b : (p == 1 ? (a & 3) == (b & 3) : a % 3 == b % 3); }
+static _Bool pred1(int p, int x) { return p == 0 ? (x & 3) == 0 : (p == 1 ? x < 0 : x % 3 == 0); }
 #define ASSUME_SORTED(c, a, n, L, KEY) FORK(vf_s, (L) - 1, (int)(n) - 1) VF_ASSUME(!lt(c, a[vf_s + 1] KEY, a[vf_s] KEY))
 
+/* VF_KNOWN must appear textually in the GROUP section (the engine rewrites it there): harness macros take it as the KNOWN argument */
 /* ---- rotate / rotate_copy [alg.rotate]: out[k] == in[(k+m) mod n]; returns first + (last - middle) ------------------------- */
-#define B_ROTATE(L, CALL) { LEN(n, L); VF_INPUT(unsigned char, m); VF_ASSUME(m <= n); BUF(int, a, n, L); \
-  int *r = CALL(a, a + m, a + n); \
-  VF_ASSERT(r == a + (n - m), "rotate returns first + (last - middle)"); \
-  FORK(k, L, n) VF_ASSERT(a[k] == a_in[(k + m) % n], "rotate: out[k] == in[(k + m) mod n]"); \
+#define B_ROTATE(L, CALL) { LEN(n, L); VF_INPUT(unsigned char, m); VF_ASSUME(m <= n); IN(int, a, L); \
+  SPLIT(n, L) SPLIT(m, L) { MK(int, a, n, L); \
+    int *r = CALL(a, a + m, a + n); \
+    VF_ASSERT(r == a + (n - m), "rotate returns first + (last - middle)"); \
+    FORK(k, L, n) VF_ASSERT(a[k] == a_in[(k + m) % n], "rotate: out[k] == in[(k + m) mod n]"); } \
   VF_REACH(); }
-#define B_ROTATE_COPY(L) { LEN(n, L); VF_INPUT(unsigned char, m); VF_ASSUME(m <= n); BUF(int, a, n, L); OUTBUF(int, d, n, L); \
-  int *r = a_rotate_copy(a, a + m, a + n, d); \
-  VF_ASSERT(r == d + n, "rotate_copy returns result + (last - first)"); \
-  FORK(k, L, n) { VF_ASSERT(d[k] == a_in[(k + m) % n], "rotate_copy: out[k] == in[(k + m) mod n]"); VF_ASSERT(a[k] == a_in[k], "rotate_copy leaves the source unchanged"); } \
+#define B_ROTATE_COPY(L) { LEN(n, L); VF_INPUT(unsigned char, m); VF_ASSUME(m <= n); IN(int, a, L); \
+  SPLIT(n, L) SPLIT(m, L) { MK(int, a, n, L); OUT(int, d, n); \
+    int *r = a_rotate_copy(a, a + m, a + n, d); \
+    VF_ASSERT(r == d + n, "rotate_copy returns result + (last - first)"); \
+    FORK(k, L, n) { VF_ASSERT(d[k] == a_in[(k + m) % n], "rotate_copy: out[k] == in[(k + m) mod n]"); VF_ASSERT(a[k] == a_in[k], "rotate_copy leaves the source unchanged"); } } \
   VF_REACH(); }
 
-/* VF_KNOWN must appear textually in the GROUP section (the engine rewrites it there): harness macros take it as the KNOWN argument */
 /* ---- shift_left / shift_right [alg.shift]; s in [-1, n+1]; s < 0 is documented by tetl as "does nothing" ------------------- */
-#define B_SHIFT_LEFT(L, CALL) { LEN(n, L); VF_INPUT(signed char, s); VF_ASSUME(s >= -1 && s <= n + 1); BUF(int, a, n, L); \
-  int *r = CALL(a, a + n, (long)s); \
-  if (s <= 0) { VF_ASSERT(r == a + n, "shift_left(n <= 0) returns last"); FORK(k, L, n) VF_ASSERT(a[k] == a_in[k], "shift_left(n <= 0) has no effects"); } \
-  else if (s >= n) { VF_ASSERT(r == a, "shift_left(n >= last - first) returns first"); FORK(k, L, n) VF_ASSERT(a[k] == a_in[k], "shift_left(n >= last - first) has no effects"); } \
-  else { VF_ASSERT(r == a + (n - s), "shift_left returns first + (last - first - n)"); FORK(k, L, n - s) VF_ASSERT(a[k] == a_in[k + s], "shift_left: element first+n+i is moved to first+i"); } \
+#define B_SHIFT_LEFT(L, CALL) { LEN(n, L); VF_INPUT(signed char, s); VF_ASSUME(s >= -1 && s <= n + 1); IN(int, a, L); \
+  SPLIT(n, L) { MK(int, a, n, L); \
+    int *r = CALL(a, a + n, (long)s); \
+    if (s <= 0) { VF_ASSERT(r == a + n, "shift_left(n <= 0) returns last"); FORK(k, L, n) VF_ASSERT(a[k] == a_in[k], "shift_left(n <= 0) has no effects"); } \
+    else if (s >= n) { VF_ASSERT(r == a, "shift_left(n >= last - first) returns first"); FORK(k, L, n) VF_ASSERT(a[k] == a_in[k], "shift_left(n >= last - first) has no effects"); } \
+    else { VF_ASSERT(r == a + (n - s), "shift_left returns first + (last - first - n)"); FORK(k, L, n - s) VF_ASSERT(a[k] == a_in[k + s], "shift_left: element first+n+i is moved to first+i"); } } \
   VF_REACH(); }
-#define B_SHIFT_RIGHT(L, CALL, KNOWN) { LEN(n, L); VF_INPUT(signed char, s); VF_ASSUME(s >= -1 && s <= n + 1); BUF(int, a, n, L); \
-  KNOWN; \
-  int *r = CALL(a, a + n, (long)s); \
-  if (s < 0) { FORK(k, L, n) VF_ASSERT(a[k] == a_in[k], "shift_right(n < 0) has no effects (tetl extension)"); } \
-  else if (s == 0) { VF_ASSERT(r == a, "shift_right(0) returns first + n == first"); FORK(k, L, n) VF_ASSERT(a[k] == a_in[k], "shift_right(0) has no effects"); } \
-  else if (s >= n) { VF_ASSERT(r == a + n, "shift_right(n >= last - first) returns last"); FORK(k, L, n) VF_ASSERT(a[k] == a_in[k], "shift_right(n >= last - first) has no effects"); } \
-  else { VF_ASSERT(r == a + s, "shift_right returns first + n"); FORK(k, L, n - s) VF_ASSERT(a[k + s] == a_in[k], "shift_right: element first+i is moved to first+n+i"); } \
+#define B_SHIFT_RIGHT(L, CALL, KNOWN) { LEN(n, L); VF_INPUT(signed char, s); VF_ASSUME(s >= -1 && s <= n + 1); IN(int, a, L); \
+  SPLIT(n, L) { MK(int, a, n, L); \
+    KNOWN; \
+    int *r = CALL(a, a + n, (long)s); \
+    if (s < 0) { FORK(k, L, n) VF_ASSERT(a[k] == a_in[k], "shift_right(n < 0) has no effects (tetl extension)"); } \
+    else if (s == 0) { VF_ASSERT(r == a, "shift_right(0) returns first + n == first"); FORK(k, L, n) VF_ASSERT(a[k] == a_in[k], "shift_right(0) has no effects"); } \
+    else if (s >= n) { VF_ASSERT(r == a + n, "shift_right(n >= last - first) returns last"); FORK(k, L, n) VF_ASSERT(a[k] == a_in[k], "shift_right(n >= last - first) has no effects"); } \
+    else { VF_ASSERT(r == a + s, "shift_right returns first + n"); FORK(k, L, n - s) VF_ASSERT(a[k + s] == a_in[k], "shift_right: element first+i is moved to first+n+i"); } } \
   VF_REACH(); }
 
 /* ---- partition family [alg.partitions] ------------------------------------------------------------------------------------- */
-#define B_PARTITION(L, CALL) { LEN(n, L); SEL(p, 2); VF_INPUT(int, g); BUF(int, a, n, L); int cnt = 0, gb = 0, ga = 0; \
-  FORK(k, L, n) { cnt += pred1(p, a_in[k]); gb += a_in[k] == g; } \
-  int *r = CALL(a, a + n, p); \
-  VF_ASSERT(r == a + cnt, "partition returns first + #{elements satisfying pred}"); \
-  FORK(k, L, n) { ga += a[k] == g; VF_ASSERT(pred1(p, a[k]) == (k < cnt), "partition: pred holds exactly on [first, ret)"); } \
-  VF_ASSERT(ga == gb, "partition permutes: every value occurs as often as before"); VF_REACH(); }
-#define B_STABLE_PARTITION(L) { LEN(n, L); KTBUF(a, n, L, 0); KT e[(L) + 1]; int cnt = 0, w = 0; \
-  FORK(k, L, n) if (a_in[k].key % 3 == 0) { e[w] = a_in[k]; ++w; } cnt = w; \
-  FORK(k, L, n) if (a_in[k].key % 3 != 0) { e[w] = a_in[k]; ++w; } \
-  KT *r = a_stable_partition(a, a + n); \
-  VF_ASSERT(r == a + cnt, "stable_partition returns first + #{elements satisfying pred}"); \
-  FORK(k, L, n) VF_ASSERT(KTEQ(a[k], e[k]), "stable_partition: satisfying elements in their original order, then the others in their original order"); \
+#define B_PARTITION(L, CALL, CLO, CHI) { LEN(n, L); SEL(p, CLO, CHI); VF_INPUT(int, g); IN(int, a, L); WIN(p == 2, a_in, L, ); \
+  SPLIT(n, L) { MK(int, a, n, L); int cnt = 0, gb = 0, ga = 0; \
+    FORK(k, L, n) { cnt += pred1(p, a_in[k]); gb += a_in[k] == g; } \
+    int *r = CALL(a, a + n, p); \
+    VF_ASSERT(r == a + cnt, "partition returns first + #{elements satisfying pred}"); \
+    FORK(k, L, n) { ga += a[k] == g; VF_ASSERT(pred1(p, a[k]) == (k < cnt), "partition: pred holds exactly on [first, ret)"); } \
+    VF_ASSERT(ga == gb, "partition permutes: every value occurs as often as before"); } \
   VF_REACH(); }
-#define B_PARTITION_COPY(L) { LEN(n, L); BUF(int, a, n, L); int cnt = 0, wt = 0, wf = 0; FORK(k, L, n) cnt += a_in[k] % 3 == 0; \
-  OUTBUF(int, dt, cnt, L); OUTBUF(int, df, n - cnt, L); int *rt, *rf; \
-  a_partition_copy(a, a + n, dt, df, &rt, &rf); \
-  VF_ASSERT(rt == dt + cnt && rf == df + (n - cnt), "partition_copy returns the ends of the two output ranges"); \
-  FORK(k, L, n) { VF_ASSERT(a[k] == a_in[k], "partition_copy leaves the source unchanged"); \
-    if (a_in[k] % 3 == 0) { VF_ASSERT(dt[wt] == a_in[k], "partition_copy: satisfying elements to out_true, in order"); ++wt; } \
-    else { VF_ASSERT(df[wf] == a_in[k], "partition_copy: other elements to out_false, in order"); ++wf; } } \
+#define B_STABLE_PARTITION(L) { LEN(n, L); KTIN(a, L, 0); \
+  SPLIT(n, L) { MK(KT, a, n, L); KT e[(L) + 1]; int cnt = 0, w = 0; \
+    FORK(k, L, n) if ((a_in[k].key & 3) == 0) { e[w] = a_in[k]; ++w; } cnt = w; \
+    FORK(k, L, n) if ((a_in[k].key & 3) != 0) { e[w] = a_in[k]; ++w; } \
+    KT *r = a_stable_partition(a, a + n); \
+    VF_ASSERT(r == a + cnt, "stable_partition returns first + #{elements satisfying pred}"); \
+    FORK(k, L, n) VF_ASSERT(KTEQ(a[k], e[k]), "stable_partition: satisfying elements in their original order, then the others in their original order"); } \
+  VF_REACH(); }
+#define B_PARTITION_COPY(L) { LEN(n, L); IN(int, a, L); \
+  SPLIT(n, L) { MK(int, a, n, L); int cnt = 0, wt = 0, wf = 0; FORK(k, L, n) cnt += (a_in[k] & 3) == 0; \
+    SPLIT(cnt, L) if (cnt <= n) { OUT(int, dt, cnt); OUT(int, df, n - cnt); int *rt, *rf; \
+      a_partition_copy(a, a + n, dt, df, &rt, &rf); \
+      VF_ASSERT(rt == dt + cnt && rf == df + (n - cnt), "partition_copy returns the ends of the two output ranges"); \
+      FORK(k, L, n) { VF_ASSERT(a[k] == a_in[k], "partition_copy leaves the source unchanged"); \
+        if ((a_in[k] & 3) == 0) { VF_ASSERT(dt[wt] == a_in[k], "partition_copy: satisfying elements to out_true, in order"); ++wt; } \
+        else { VF_ASSERT(df[wf] == a_in[k], "partition_copy: other elements to out_false, in order"); ++wf; } } } } \
   VF_REACH(); }
 
 /* ---- sorting [alg.sort]: sorted + permutation (count of a ghost value g unchanged: sound for all values) -------------------- */
-#define B_SORT(L, CALL) { LEN(n, L); SEL(c, 3); VF_INPUT(int, g); BUF(int, a, n, L); int gb = 0, ga = 0; \
-  CALL(a, a + n, c); \
-  FORK(k, L, n) { gb += a_in[k] == g; ga += a[k] == g; } \
-  VF_ASSERT(ga == gb, "sort permutes: every value occurs as often as before"); \
-  FORK(k, (L) - 1, n - 1) VF_ASSERT(!lt(c, a[k + 1], a[k]), "sort: the result is sorted with respect to comp"); \
+#define PERM_G(L, n) { int gb = 0, ga = 0; FORK(k, L, n) { gb += a_in[k] == g; ga += a[k] == g; } VF_ASSERT(ga == gb, "permutation: every value occurs as often as before"); }
+#define B_SORT(L, CALL, CLO, CHI) { LEN(n, L); SEL(c, CLO, CHI); VF_INPUT(int, g); IN(int, a, L); WIN(c == 3, a_in, L, ); \
+  SPLIT(n, L) { MK(int, a, n, L); \
+    CALL(a, a + n, c); \
+    PERM_G(L, n) \
+    FORK(k, (L) - 1, n - 1) VF_ASSERT(!lt(c, a[k + 1], a[k]), "sort: the result is sorted with respect to comp"); } \
   VF_REACH(); }
-#define B_SORT_DEFAULT(L, CALL) { LEN(n, L); VF_INPUT(int, g); BUF(int, a, n, L); int gb = 0, ga = 0; \
-  CALL(a, a + n); \
-  FORK(k, L, n) { gb += a_in[k] == g; ga += a[k] == g; } \
-  VF_ASSERT(ga == gb, "sort permutes: every value occurs as often as before"); \
-  FORK(k, (L) - 1, n - 1) VF_ASSERT(!(a[k + 1] < a[k]), "sort: the result is sorted with respect to operator<"); \
+#define B_SORT_DEFAULT(L, CALL) { LEN(n, L); VF_INPUT(int, g); IN(int, a, L); \
+  SPLIT(n, L) { MK(int, a, n, L); \
+    CALL(a, a + n); \
+    PERM_G(L, n) \
+    FORK(k, (L) - 1, n - 1) VF_ASSERT(!(a[k + 1] < a[k]), "sort: the result is sorted with respect to operator<"); } \
   VF_REACH(); }
-/* partial_sort: [first,middle) sorted and no element of [middle,last) less than any of them; nth_element: nothing after nth is less
- * than anything before it and a[nth] is not greater than anything after it */
-#define B_PARTIAL_SORT(L) { LEN(n, L); SEL(c, 3); VF_INPUT(unsigned char, m); VF_ASSUME(m <= n); VF_INPUT(int, g); BUF(int, a, n, L); int gb = 0, ga = 0; \
-  a_partial_sort(a, a + m, a + n, c); \
-  FORK(k, L, n) { gb += a_in[k] == g; ga += a[k] == g; } \
-  VF_ASSERT(ga == gb, "partial_sort permutes"); \
-  FORK(k, (L) - 1, m - 1) VF_ASSERT(!lt(c, a[k + 1], a[k]), "partial_sort: [first, middle) is sorted"); \
-  FORK(i, L, m) FORK(j, L, n) if (j >= m) VF_ASSERT(!lt(c, a[j], a[i]), "partial_sort: no element of [middle, last) is less than an element of [first, middle)"); \
+/* partial_sort: [first,middle) sorted and no element of [middle,last) less than any of them; nth_element: nothing in [nth,last) is
+ * less than anything in [first,nth], i.e. a[nth] is the element a full sort would put there */
+#define B_PARTIAL_SORT(L, CLO, CHI) { LEN(n, L); SEL(c, CLO, CHI); VF_INPUT(unsigned char, m); VF_ASSUME(m <= n); VF_INPUT(int, g); IN(int, a, L); WIN(c == 3, a_in, L, ); \
+  SPLIT(n, L) SPLIT(m, L) { MK(int, a, n, L); \
+    a_partial_sort(a, a + m, a + n, c); \
+    PERM_G(L, n) \
+    FORK(k, (L) - 1, m - 1) VF_ASSERT(!lt(c, a[k + 1], a[k]), "partial_sort: [first, middle) is sorted"); \
+    FORK(i, L, m) FORK(j, L, n) if (j >= m) VF_ASSERT(!lt(c, a[j], a[i]), "partial_sort: no element of [middle, last) is less than an element of [first, middle)"); } \
   VF_REACH(); }
-#define B_NTH_ELEMENT(L) { LEN(n, L); SEL(c, 3); VF_INPUT(unsigned char, m); VF_ASSUME(m <= n); VF_INPUT(int, g); BUF(int, a, n, L); int gb = 0, ga = 0; \
-  a_nth_element(a, a + m, a + n, c); \
-  FORK(k, L, n) { gb += a_in[k] == g; ga += a[k] == g; } \
-  VF_ASSERT(ga == gb, "nth_element permutes"); \
-  FORK(i, L, n) FORK(j, L, n) if (i <= m && j >= m && i < j) VF_ASSERT(!lt(c, a[j], a[i]), "nth_element: for i in [first, nth], j in [nth, last): !(a[j] < a[i])"); \
+#define B_NTH_ELEMENT(L, CLO, CHI) { LEN(n, L); SEL(c, CLO, CHI); VF_INPUT(unsigned char, m); VF_ASSUME(m <= n); VF_INPUT(int, g); IN(int, a, L); WIN(c == 3, a_in, L, ); \
+  SPLIT(n, L) SPLIT(m, L) { MK(int, a, n, L); \
+    a_nth_element(a, a + m, a + n, c); \
+    PERM_G(L, n) \
+    FORK(i, L, n) FORK(j, L, n) if (i <= m && j >= m && i < j) VF_ASSERT(!lt(c, a[j], a[i]), "nth_element: for i in [first, nth], j in [nth, last): !(a[j] < a[i])"); } \
   VF_REACH(); }
-#define B_STABLE_SORT(L, CALL) { LEN(n, L); SEL(c, 3); KTBUF(a, n, L, 0); \
-  CALL(a, a + n, c); \
-  FORK(k, L, n) VF_ASSERT(a[k].tag >= 0 && a[k].tag < n && a[k].key == a_in[a[k].tag].key, "stable sort: every output element is an input element"); \
-  FORK(j, L, n) FORK(k, L, n) if (j < k) VF_ASSERT(a[j].tag != a[k].tag, "stable sort: no input element is duplicated (permutation)"); \
-  FORK(k, (L) - 1, n - 1) { VF_ASSERT(!lt(c, a[k + 1].key, a[k].key), "stable sort: the result is sorted with respect to comp"); \
-    VF_ASSERT(lt(c, a[k].key, a[k + 1].key) || a[k].tag < a[k + 1].tag, "stable sort: equivalent elements keep their original order"); } \
+#define B_STABLE_SORT(L, CALL, CLO, CHI) { LEN(n, L); SEL(c, CLO, CHI); KTIN(a, L, 0); WIN(c == 3, a_in, L, .key); \
+  SPLIT(n, L) { MK(KT, a, n, L); \
+    CALL(a, a + n, c); \
+    FORK(k, L, n) VF_ASSERT(a[k].tag >= 0 && a[k].tag < n && a[k].key == a_in[a[k].tag].key, "stable sort: every output element is an input element"); \
+    FORK(j, L, n) FORK(k, L, n) if (j < k) VF_ASSERT(a[j].tag != a[k].tag, "stable sort: no input element is duplicated (permutation)"); \
+    FORK(k, (L) - 1, n - 1) { VF_ASSERT(!lt(c, a[k + 1].key, a[k].key), "stable sort: the result is sorted with respect to comp"); \
+      VF_ASSERT(lt(c, a[k].key, a[k + 1].key) || a[k].tag < a[k + 1].tag, "stable sort: equivalent elements keep their original order"); } } \
   VF_REACH(); }
 
 /* ---- is_permutation [alg.is.permutation] ----------------------------------------------------------------------------------- */
 #define PERM_REF(ok, L, n) FORK(i, L, n) { int ca = 0, cb = 0; FORK(k, L, n) { ca += a_in[k] == a_in[i]; cb += b_in[k] == a_in[i]; } if (ca != cb) ok = 0; }
-#define B_IS_PERMUTATION3(L) { LEN(n, L); BUF(int, a, n, L); BUF(int, b, n, L); _Bool ok = 1; PERM_REF(ok, L, n) \
-  _Bool r = a_is_permutation3(a, a + n, b); \
-  VF_ASSERT(r == ok, "is_permutation(f1,l1,f2): true iff every value occurs equally often in both ranges"); VF_REACH(); }
-#define B_IS_PERMUTATION4(L, CALL) { LEN(n, L); LEN(n2, L); BUF(int, a, n, L); BUF(int, b, n2, L); _Bool ok = n == n2; if (ok) { PERM_REF(ok, L, n) } \
-  _Bool r = CALL(a, a + n, b, b + n2); \
-  VF_ASSERT(r == ok, "is_permutation(f1,l1,f2,l2): false for different lengths, else true iff every value occurs equally often"); VF_REACH(); }
+#define B_IS_PERMUTATION3(L) { LEN(n, L); IN(int, a, L); IN(int, b, L); \
+  SPLIT(n, L) { MK(int, a, n, L); MK(int, b, n, L); _Bool ok = 1; PERM_REF(ok, L, n) \
+    _Bool r = a_is_permutation3(a, a + n, b); \
+    VF_ASSERT(r == ok, "is_permutation(f1,l1,f2): true iff every value occurs equally often in both ranges"); } \
+  VF_REACH(); }
+#define B_IS_PERMUTATION4(L, CALL, KNOWN) { LEN(n, L); LEN(n2, L); IN(int, a, L); IN(int, b, L); \
+  SPLIT(n, L) SPLIT(n2, L) { MK(int, a, n, L); MK(int, b, n2, L); _Bool ok = n == n2; if (ok) { PERM_REF(ok, L, n) } \
+    KNOWN; \
+    _Bool r = CALL(a, a + n, b, b + n2); \
+    VF_ASSERT(r == ok, "is_permutation(f1,l1,f2,l2): false for different lengths, else true iff every value occurs equally often"); } \
+  VF_REACH(); }
 
 /* ---- search family [alg.search] [alg.find.end] [alg.find.first.of]: first / last position such that ... ---------------------- */
-#define MATCH_AT(ok, i, L, m, p) _Bool ok = (i) + (int)(m) <= (int)n; FORK(j, L, m) if (ok && !peq(p, a_in[(i) + j], b_in[j])) ok = 0;
-#define B_SEARCH(L, CALL) { LEN(n, L); LEN(m, L); SEL(p, 2); BUF(int, a, n, L); BUF(int, b, m, L); int idx = n; \
-  for (int i = (L); i >= 0; --i) { MATCH_AT(ok, i, L, m, p) if (ok) idx = i; } \
-  int *r = CALL(a, a + n, b, b + m, p); \
-  VF_ASSERT(r == a + idx, "search returns the first position where the needle matches (first for an empty needle), else last"); VF_REACH(); }
-#define B_FIND_END(L) { LEN(n, L); LEN(m, L); SEL(p, 2); BUF(int, a, n, L); BUF(int, b, m, L); int idx = n; \
-  for (int i = 0; i <= (L); ++i) { MATCH_AT(ok, i, L, m, p) if (ok && m > 0) idx = i; } \
-  int *r = a_find_end(a, a + n, b, b + m, p); \
-  VF_ASSERT(r == a + idx, "find_end returns the last position where the needle matches, last if none or the needle is empty"); VF_REACH(); }
-#define B_SEARCH_N(L, KNOWN) { LEN(n, L); VF_INPUT(signed char, s); VF_ASSUME(s >= -1 && s <= n + 1); SEL(p, 2); VF_INPUT(int, v); BUF(int, a, n, L); int idx = n, fm = n; \
-  for (int i = (L); i >= 0; --i) { _Bool ok = i + (int)s <= (int)n; FORK(j, (L) + 1, s) if (ok && !peq(p, a_in[i + j], v)) ok = 0; if (ok) idx = i; if (i < n && peq(p, a_in[i], v)) fm = i; } \
-  KNOWN; \
-  int *r = a_search_n(a, a + n, s, &v, p); \
-  VF_ASSERT(r == a + idx, "search_n returns the first position of count consecutive matching elements (first for count <= 0), else last"); VF_REACH(); }
-#define B_FIND_FIRST_OF(L) { LEN(n, L); LEN(m, L); SEL(p, 2); BUF(int, a, n, L); BUF(int, b, m, L); int idx = n; \
-  for (int i = (L) - 1; i >= 0; --i) if (i < n) { _Bool any = 0; FORK(j, L, m) if (peq(p, a_in[i], b_in[j])) any = 1; if (any) idx = i; } \
-  int *r = a_find_first_of(a, a + n, b, b + m, p); \
-  VF_ASSERT(r == a + idx, "find_first_of returns the first element that matches any element of the second range, else last"); VF_REACH(); }
+#define MATCH_AT(ok, i, L, m, p) _Bool ok = (i) + (m) <= n; FORK(j, L, m) if (ok && !peq(p, a_in[(i) + j], b_in[j])) ok = 0;
+#define B_SEARCH(L, CALL, CLO, CHI) { LEN(n, L); LEN(m, L); SEL(p, CLO, CHI); IN(int, a, L); IN(int, b, L); WIN(p == 2, a_in, L, ); WIN(p == 2, b_in, L, ); \
+  SPLIT(n, L) SPLIT(m, L) { MK(int, a, n, L); MK(int, b, m, L); int idx = n; \
+    for (int i = (L); i >= 0; --i) { MATCH_AT(ok, i, L, m, p) if (ok) idx = i; } \
+    int *r = CALL(a, a + n, b, b + m, p); \
+    VF_ASSERT(r == a + idx, "search returns the first position where the needle matches (first for an empty needle), else last"); } \
+  VF_REACH(); }
+#define B_FIND_END(L, CLO, CHI) { LEN(n, L); LEN(m, L); SEL(p, CLO, CHI); IN(int, a, L); IN(int, b, L); WIN(p == 2, a_in, L, ); WIN(p == 2, b_in, L, ); \
+  SPLIT(n, L) SPLIT(m, L) { MK(int, a, n, L); MK(int, b, m, L); int idx = n; \
+    for (int i = 0; i <= (L); ++i) { MATCH_AT(ok, i, L, m, p) if (ok && m > 0) idx = i; } \
+    int *r = a_find_end(a, a + n, b, b + m, p); \
+    VF_ASSERT(r == a + idx, "find_end returns the last position where the needle matches, last if none or the needle is empty"); } \
+  VF_REACH(); }
+#define B_SEARCH_N(L, CLO, CHI, KNOWN) { LEN(n, L); VF_INPUT(signed char, s); VF_ASSUME(s >= -1 && s <= n + 1); SEL(p, CLO, CHI); VF_INPUT(int, v); IN(int, a, L); WIN(p == 2, a_in, L, ); if (p == 2) VF_ASSUME(v >= -4 && v <= 4); \
+  SPLIT(n, L) { MK(int, a, n, L); int idx = n, fm = n; \
+    for (int i = (L); i >= 0; --i) { _Bool ok = i + (int)s <= n; FORK(j, (L) + 1, s) if (ok && !peq(p, a_in[i + j], v)) ok = 0; if (ok) idx = i; if (i < n && peq(p, a_in[i], v)) fm = i; } \
+    KNOWN; \
+    int *r = a_search_n(a, a + n, s, &v, p); \
+    VF_ASSERT(r == a + idx, "search_n returns the first position of count consecutive matching elements (first for count <= 0), else last"); } \
+  VF_REACH(); }
+#define B_FIND_FIRST_OF(L, CLO, CHI) { LEN(n, L); LEN(m, L); SEL(p, CLO, CHI); IN(int, a, L); IN(int, b, L); WIN(p == 2, a_in, L, ); WIN(p == 2, b_in, L, ); \
+  SPLIT(n, L) SPLIT(m, L) { MK(int, a, n, L); MK(int, b, m, L); int idx = n; \
+    for (int i = (L) - 1; i >= 0; --i) if (i < n) { _Bool any = 0; FORK(j, L, m) if (peq(p, a_in[i], b_in[j])) any = 1; if (any) idx = i; } \
+    int *r = a_find_first_of(a, a + n, b, b + m, p); \
+    VF_ASSERT(r == a + idx, "find_first_of returns the first element that matches any element of the second range, else last"); } \
+  VF_REACH(); }
 /* includes [includes]: for sorted ranges, true iff every equivalence class has at least as many members in range 1 as in range 2 */
-#define B_INCLUDES(L) { LEN(n, L); LEN(m, L); SEL(c, 3); BUF(int, a, n, L); BUF(int, b, m, L); ASSUME_SORTED(c, a_in, n, L, ); ASSUME_SORTED(c, b_in, m, L, ); _Bool ok = 1; \
-  FORK(j, L, m) { int ca = 0, cb = 0; FORK(i, L, n) ca += eqv(c, a_in[i], b_in[j]); FORK(k, L, m) cb += eqv(c, b_in[k], b_in[j]); if (cb > ca) ok = 0; } \
-  _Bool r = a_includes(a, a + n, b, b + m, c); \
-  VF_ASSERT(r == ok, "includes: true iff the second sorted range is a sub-multiset of the first (true for an empty second range)"); VF_REACH(); }
+#define B_INCLUDES(L, CLO, CHI) { LEN(n, L); LEN(m, L); SEL(c, CLO, CHI); IN(int, a, L); IN(int, b, L); WIN(c == 3, a_in, L, ); WIN(c == 3, b_in, L, ); \
+  SPLIT(n, L) SPLIT(m, L) { MK(int, a, n, L); MK(int, b, m, L); ASSUME_SORTED(c, a_in, n, L, ); ASSUME_SORTED(c, b_in, m, L, ); _Bool ok = 1; \
+    FORK(j, L, m) { int ca = 0, cb = 0; FORK(i, L, n) ca += eqv(c, a_in[i], b_in[j]); FORK(k, L, m) cb += eqv(c, b_in[k], b_in[j]); if (cb > ca) ok = 0; } \
+    _Bool r = a_includes(a, a + n, b, b + m, c); \
+    VF_ASSERT(r == ok, "includes: true iff the second sorted range is a sub-multiset of the first (true for an empty second range)"); } \
+  VF_REACH(); }
 
 /* ---- merge / inplace_merge [alg.merge]: the final position of every element in closed form (sorted, stable, range 1 first) ---- */
-#define B_MERGE(L) { LEN(na, L); LEN(nb, L); SEL(c, 3); KTBUF(a, na, L, 0); KTBUF(b, nb, L, 100); ASSUME_SORTED(c, a_in, na, L, .key); ASSUME_SORTED(c, b_in, nb, L, .key); \
-  OUTBUF(KT, d, na + nb, 2 * (L)); \
-  KT *r = a_merge(a, a + na, b, b + nb, d, c); \
-  VF_ASSERT(r == d + (na + nb), "merge returns result + (last1 - first1) + (last2 - first2)"); \
-  FORK(i, L, na) { int pos = i; FORK(j, L, nb) pos += lt(c, b_in[j].key, a_in[i].key); VF_ASSERT(KTEQ(d[pos], a_in[i]), "merge: a[i] lands behind exactly the elements of range 2 that are less than it"); VF_ASSERT(KTEQ(a[i], a_in[i]), "merge leaves range 1 unchanged"); } \
-  FORK(j, L, nb) { int pos = j; FORK(i, L, na) pos += !lt(c, b_in[j].key, a_in[i].key); VF_ASSERT(KTEQ(d[pos], b_in[j]), "merge: b[j] lands behind exactly the elements of range 1 that are not greater than it"); VF_ASSERT(KTEQ(b[j], b_in[j]), "merge leaves range 2 unchanged"); } \
+#define B_MERGE(L, CLO, CHI) { LEN(na, L); LEN(nb, L); SEL(c, CLO, CHI); KTIN(a, L, 0); KTIN(b, L, 100); WIN(c == 3, a_in, L, .key); WIN(c == 3, b_in, L, .key); \
+  SPLIT(na, L) SPLIT(nb, L) { MK(KT, a, na, L); MK(KT, b, nb, L); ASSUME_SORTED(c, a_in, na, L, .key); ASSUME_SORTED(c, b_in, nb, L, .key); OUT(KT, d, na + nb); \
+    KT *r = a_merge(a, a + na, b, b + nb, d, c); \
+    VF_ASSERT(r == d + (na + nb), "merge returns result + (last1 - first1) + (last2 - first2)"); \
+    FORK(i, L, na) { int pos = i; FORK(j, L, nb) pos += lt(c, b_in[j].key, a_in[i].key); VF_ASSERT(KTEQ(d[pos], a_in[i]), "merge: a[i] lands behind exactly the elements of range 2 that are less than it"); VF_ASSERT(KTEQ(a[i], a_in[i]), "merge leaves range 1 unchanged"); } \
+    FORK(j, L, nb) { int pos = j; FORK(i, L, na) pos += !lt(c, b_in[j].key, a_in[i].key); VF_ASSERT(KTEQ(d[pos], b_in[j]), "merge: b[j] lands behind exactly the elements of range 1 that are not greater than it"); VF_ASSERT(KTEQ(b[j], b_in[j]), "merge leaves range 2 unchanged"); } } \
   VF_REACH(); }
-#define B_MERGE_INT(L, CALL) { LEN(na, L); LEN(nb, L); BUF(int, a, na, L); BUF(int, b, nb, L); ASSUME_SORTED(0, a_in, na, L, ); ASSUME_SORTED(0, b_in, nb, L, ); \
-  OUTBUF(int, d, na + nb, 2 * (L)); \
-  int *r = CALL(a, a + na, b, b + nb, d); \
-  VF_ASSERT(r == d + (na + nb), "merge returns result + (last1 - first1) + (last2 - first2)"); \
-  FORK(i, L, na) { int pos = i; FORK(j, L, nb) pos += b_in[j] < a_in[i]; VF_ASSERT(d[pos] == a_in[i], "merge: a[i] lands behind exactly the elements of range 2 that are less than it"); } \
-  FORK(j, L, nb) { int pos = j; FORK(i, L, na) pos += !(b_in[j] < a_in[i]); VF_ASSERT(d[pos] == b_in[j], "merge: b[j] lands behind exactly the elements of range 1 that are not greater than it"); } \
+#define B_MERGE_INT(L, CALL) { LEN(na, L); LEN(nb, L); IN(int, a, L); IN(int, b, L); \
+  SPLIT(na, L) SPLIT(nb, L) { MK(int, a, na, L); MK(int, b, nb, L); ASSUME_SORTED(0, a_in, na, L, ); ASSUME_SORTED(0, b_in, nb, L, ); OUT(int, d, na + nb); \
+    int *r = CALL(a, a + na, b, b + nb, d); \
+    VF_ASSERT(r == d + (na + nb), "merge returns result + (last1 - first1) + (last2 - first2)"); \
+    FORK(i, L, na) { int pos = i; FORK(j, L, nb) pos += b_in[j] < a_in[i]; VF_ASSERT(d[pos] == a_in[i], "merge: a[i] lands behind exactly the elements of range 2 that are less than it"); } \
+    FORK(j, L, nb) { int pos = j; FORK(i, L, na) pos += !(b_in[j] < a_in[i]); VF_ASSERT(d[pos] == b_in[j], "merge: b[j] lands behind exactly the elements of range 1 that are not greater than it"); } } \
   VF_REACH(); }
-#define B_INPLACE_MERGE(L) { LEN(n, L); VF_INPUT(unsigned char, m); VF_ASSUME(m <= n); SEL(c, 3); KTBUF(a, n, L, 0); \
-  FORK(k, (L) - 1, n - 1) if (k + 1 != m) VF_ASSUME(!lt(c, a_in[k + 1].key, a_in[k].key)); \
-  a_inplace_merge(a, a + m, a + n, c); \
-  FORK(i, L, m) { int pos = i; FORK(j, L, n) if (j >= m) pos += lt(c, a_in[j].key, a_in[i].key); VF_ASSERT(KTEQ(a[pos], a_in[i]), "inplace_merge: an element of the first half lands behind exactly the second-half elements less than it"); } \
-  FORK(j, L, n) if (j >= m) { int pos = j - m; FORK(i, L, m) pos += !lt(c, a_in[j].key, a_in[i].key); VF_ASSERT(KTEQ(a[pos], a_in[j]), "inplace_merge: an element of the second half lands behind exactly the first-half elements not greater than it"); } \
+#define B_INPLACE_MERGE(L, CLO, CHI) { LEN(n, L); VF_INPUT(unsigned char, m); VF_ASSUME(m <= n); SEL(c, CLO, CHI); KTIN(a, L, 0); WIN(c == 3, a_in, L, .key); \
+  SPLIT(n, L) SPLIT(m, L) { MK(KT, a, n, L); \
+    FORK(k, (L) - 1, n - 1) if (k + 1 != m) VF_ASSUME(!lt(c, a_in[k + 1].key, a_in[k].key)); \
+    a_inplace_merge(a, a + m, a + n, c); \
+    FORK(i, L, m) { int pos = i; FORK(j, L, n) if (j >= m) pos += lt(c, a_in[j].key, a_in[i].key); VF_ASSERT(KTEQ(a[pos], a_in[i]), "inplace_merge: an element of the first half lands behind exactly the second-half elements less than it"); } \
+    FORK(j, L, n) if (j >= m) { int pos = j - m; FORK(i, L, m) pos += !lt(c, a_in[j].key, a_in[i].key); VF_ASSERT(KTEQ(a[pos], a_in[j]), "inplace_merge: an element of the second half lands behind exactly the first-half elements not greater than it"); } } \
   VF_REACH(); }
-#define B_INPLACE_MERGE_INT(L) { LEN(n, L); VF_INPUT(unsigned char, m); VF_ASSUME(m <= n); VF_INPUT(int, g); BUF(int, a, n, L); int gb = 0, ga = 0; \
-  FORK(k, (L) - 1, n - 1) if (k + 1 != m) VF_ASSUME(!(a_in[k + 1] < a_in[k])); \
-  a_inplace_merge_int(a, a + m, a + n); \
-  FORK(k, L, n) { gb += a_in[k] == g; ga += a[k] == g; } VF_ASSERT(ga == gb, "inplace_merge permutes"); \
-  FORK(k, (L) - 1, n - 1) VF_ASSERT(!(a[k + 1] < a[k]), "inplace_merge: the result is sorted"); VF_REACH(); }
+#define B_INPLACE_MERGE_INT(L) { LEN(n, L); VF_INPUT(unsigned char, m); VF_ASSUME(m <= n); VF_INPUT(int, g); IN(int, a, L); \
+  SPLIT(n, L) SPLIT(m, L) { MK(int, a, n, L); \
+    FORK(k, (L) - 1, n - 1) if (k + 1 != m) VF_ASSUME(!(a_in[k + 1] < a_in[k])); \
+    a_inplace_merge_int(a, a + m, a + n); \
+    PERM_G(L, n) \
+    FORK(k, (L) - 1, n - 1) VF_ASSERT(!(a[k + 1] < a[k]), "inplace_merge: the result is sorted"); } \
+  VF_REACH(); }
 
 /* ---- set operations [alg.set.operations]: plain two-finger reference; {key,tag} elements show which range an element is copied from */
 enum { OP_UNION, OP_INTER, OP_DIFF, OP_SYM };
@@ -195,72 +228,233 @@ static int ref_setop(int op, int c, const KT *a, int na, const KT *b, int nb, KT
     }
     return w;
 }
-#define B_SETOP(L, OP, CALL, WHAT) { LEN(na, L); LEN(nb, L); SEL(c, 3); KTBUF(a, na, L, 0); KTBUF(b, nb, L, 100); ASSUME_SORTED(c, a_in, na, L, .key); ASSUME_SORTED(c, b_in, nb, L, .key); \
-  KT e[2 * (L) + 1]; int ne = ref_setop(OP, c, a_in, na, b_in, nb, e, 2 * (L)); OUTBUF(KT, d, ne, 2 * (L)); \
-  KT *r = CALL(a, a + na, b, b + nb, d, c); \
-  VF_ASSERT(r == d + ne, WHAT " returns the end of the constructed range"); \
-  FORK(k, 2 * (L), ne) VF_ASSERT(KTEQ(d[k], e[k]), WHAT ": the output is the standard's sorted result, equivalent elements taken from the prescribed range"); \
-  FORK(i, L, na) VF_ASSERT(KTEQ(a[i], a_in[i]), WHAT " leaves range 1 unchanged"); FORK(j, L, nb) VF_ASSERT(KTEQ(b[j], b_in[j]), WHAT " leaves range 2 unchanged"); \
+#define B_SETOP(L, OP, CALL, WHAT, CLO, CHI) { LEN(na, L); LEN(nb, L); SEL(c, CLO, CHI); KTIN(a, L, 0); KTIN(b, L, 100); WIN(c == 3, a_in, L, .key); WIN(c == 3, b_in, L, .key); \
+  SPLIT(na, L) SPLIT(nb, L) { MK(KT, a, na, L); MK(KT, b, nb, L); ASSUME_SORTED(c, a_in, na, L, .key); ASSUME_SORTED(c, b_in, nb, L, .key); \
+    KT e[2 * (L) + 1]; int ne = ref_setop(OP, c, a_in, na, b_in, nb, e, 2 * (L)); \
+    SPLIT(ne, 2 * (L)) { OUT(KT, d, ne); \
+      KT *r = CALL(a, a + na, b, b + nb, d, c); \
+      VF_ASSERT(r == d + ne, WHAT " returns the end of the constructed range"); \
+      FORK(k, 2 * (L), ne) VF_ASSERT(KTEQ(d[k], e[k]), WHAT ": the output is the standard's sorted result, equivalent elements taken from the prescribed range"); \
+      FORK(i, L, na) VF_ASSERT(KTEQ(a[i], a_in[i]), WHAT " leaves range 1 unchanged"); FORK(j, L, nb) VF_ASSERT(KTEQ(b[j], b_in[j]), WHAT " leaves range 2 unchanged"); } } \
   VF_REACH(); }
 /* default-comparator overloads over int: compared with the same reference on keys */
-#define B_SETOP_INT(L) { LEN(na, L); LEN(nb, L); SEL(op, 4); KTBUF(ka, na, L, 0); KTBUF(kb, nb, L, 100); ASSUME_SORTED(0, ka_in, na, L, .key); ASSUME_SORTED(0, kb_in, nb, L, .key); \
-  int *a = XALLOC(int, na, L); int *b = XALLOC(int, nb, L); FORK(i, L, na) a[i] = ka_in[i].key; FORK(j, L, nb) b[j] = kb_in[j].key; \
-  KT e[2 * (L) + 1]; int ne = ref_setop(op, 0, ka_in, na, kb_in, nb, e, 2 * (L)); OUTBUF(int, d, ne, 2 * (L)); \
-  int *r = a_set_ops_int(op, a, a + na, b, b + nb, d); \
-  VF_ASSERT(r == d + ne, "set_union/intersection/difference/symmetric_difference (operator<) return the end of the constructed range"); \
-  FORK(k, 2 * (L), ne) VF_ASSERT(d[k] == e[k].key, "set operations (operator<): the output is the standard's sorted result"); \
+#define B_SETOP_INT(L) { LEN(na, L); LEN(nb, L); SEL(op, 0, 3); KTIN(ka, L, 0); KTIN(kb, L, 100); \
+  SPLIT(na, L) SPLIT(nb, L) { ASSUME_SORTED(0, ka_in, na, L, .key); ASSUME_SORTED(0, kb_in, nb, L, .key); \
+    OUT(int, a, na); OUT(int, b, nb); FORK(i, L, na) a[i] = ka_in[i].key; FORK(j, L, nb) b[j] = kb_in[j].key; \
+    KT e[2 * (L) + 1]; int ne = ref_setop(op, 0, ka_in, na, kb_in, nb, e, 2 * (L)); \
+    SPLIT(ne, 2 * (L)) { OUT(int, d, ne); \
+      int *r = a_set_ops_int(op, a, a + na, b, b + nb, d); \
+      VF_ASSERT(r == d + ne, "set_union/intersection/difference/symmetric_difference (operator<) return the end of the constructed range"); \
+      FORK(k, 2 * (L), ne) VF_ASSERT(d[k] == e[k].key, "set operations (operator<): the output is the standard's sorted result"); } } \
   VF_REACH(); }
 
 /* ---- numeric: transform_reduce [transform.reduce] (unsigned: wrap-around is defined) ----------------------------------------- */
-#define B_TRANSFORM_REDUCE(L) { LEN(n, L); SEL(w, 3); VF_INPUT(unsigned, init); BUF(unsigned, a, n, L); BUF(unsigned, b, n, L); unsigned e = init; \
-  FORK(k, L, n) e = w == 0 ? e + a_in[k] * b_in[k] : (w == 1 ? e ^ (a_in[k] & b_in[k]) : e + a_in[k] * 3u); \
-  unsigned r = w == 0 ? a_transform_reduce2(a, a + n, b, init) : (w == 1 ? a_transform_reduce2_op(a, a + n, b, init) : a_transform_reduce1(a, a + n, init)); \
-  VF_ASSERT(r == e, "transform_reduce: init reduced with transform(a[k], b[k]) / transform(a[k]) over the range"); VF_REACH(); }
+#define B_TRANSFORM_REDUCE(L) { LEN(n, L); SEL(w, 0, 2); VF_INPUT(unsigned, init); IN(unsigned, a, L); IN(unsigned, b, L); \
+  SPLIT(n, L) { MK(unsigned, a, n, L); MK(unsigned, b, n, L); unsigned e = init; \
+    FORK(k, L, n) e = w == 0 ? e + a_in[k] * b_in[k] : (w == 1 ? e ^ (a_in[k] & b_in[k]) : e + a_in[k] * 3u); \
+    unsigned r = w == 0 ? a_transform_reduce2(a, a + n, b, init) : (w == 1 ? a_transform_reduce2_op(a, a + n, b, init) : a_transform_reduce1(a, a + n, init)); \
+    VF_ASSERT(r == e, "transform_reduce: init reduced with transform(a[k], b[k]) / transform(a[k]) over the range"); } \
+  VF_REACH(); }
 
-/* ============================================================ groups ========================================================= */
-/*@GROUP name=rotate props=C06,C02 kind=B bound=len<=4 unwind=6@*/
+/* ============================================================ groups =========================================================
+ * <name>: quick, len<=4 (or as stated in bound=); <name>_t: the tier=thorough twin with len<=6; *_mod3: the a % 3 comparator / predicate */
+/*@GROUP name=rotate props=C06,C02 kind=B bound=len<=4 unwind=7 solver=kissat@*/
 void h_rotate(void) B_ROTATE(4, a_rotate)
-/*@GROUP name=rotate_t props=C06,C02 kind=B bound=len<=6 unwind=8 tier=thorough@*/
+/*@GROUP name=rotate_t props=C06,C02 kind=B bound=len<=6 unwind=9 solver=kissat tier=thorough@*/
 void h_rotate_t(void) B_ROTATE(6, a_rotate)
-/*@GROUP name=rotate_fwd props=C06,C02 kind=B bound=len<=4 unwind=6@*/
+/*@GROUP name=rotate_fwd props=C06,C02 kind=B bound=len<=4 unwind=7 solver=kissat@*/
 void h_rotate_fwd(void) B_ROTATE(4, a_rotate_fwd)
-/*@GROUP name=rotate_fwd_t props=C06,C02 kind=B bound=len<=6 unwind=8 tier=thorough@*/
+/*@GROUP name=rotate_fwd_t props=C06,C02 kind=B bound=len<=6 unwind=9 solver=kissat tier=thorough@*/
 void h_rotate_fwd_t(void) B_ROTATE(6, a_rotate_fwd)
-/*@GROUP name=rotate_copy props=C06,C02 kind=B bound=len<=4 unwind=6@*/
+/*@GROUP name=rotate_copy props=C06,C02 kind=B bound=len<=4 unwind=7 solver=kissat@*/
 void h_rotate_copy(void) B_ROTATE_COPY(4)
-/*@GROUP name=rotate_copy_t props=C06,C02 kind=B bound=len<=6 unwind=8 tier=thorough@*/
+/*@GROUP name=rotate_copy_t props=C06,C02 kind=B bound=len<=6 unwind=9 solver=kissat tier=thorough@*/
 void h_rotate_copy_t(void) B_ROTATE_COPY(6)
-
-/*@GROUP name=shift_left props=C06,C02 kind=B bound=len<=4,n_in_[-1,len+1] unwind=6@*/
+/*@GROUP name=shift_left props=C06,C02 kind=B bound=len<=4,n_in_[-1,len+1] unwind=7 solver=kissat@*/
 void h_shift_left(void) B_SHIFT_LEFT(4, a_shift_left)
-/*@GROUP name=shift_left_t props=C06,C02 kind=B bound=len<=6,n_in_[-1,len+1] unwind=8 tier=thorough@*/
+/*@GROUP name=shift_left_t props=C06,C02 kind=B bound=len<=6,n_in_[-1,len+1] unwind=9 solver=kissat tier=thorough@*/
 void h_shift_left_t(void) B_SHIFT_LEFT(6, a_shift_left)
-/*@GROUP name=shift_left_fwd props=C06,C02 kind=B bound=len<=4,n_in_[-1,len+1] unwind=7@*/
+/*@GROUP name=shift_left_fwd props=C06,C02 kind=B bound=len<=4,n_in_[-1,len+1] unwind=7 solver=kissat@*/
 void h_shift_left_fwd(void) B_SHIFT_LEFT(4, a_shift_left_fwd)
-/*@GROUP name=shift_left_fwd_t props=C06,C02 kind=B bound=len<=6,n_in_[-1,len+1] unwind=9 tier=thorough@*/
+/*@GROUP name=shift_left_fwd_t props=C06,C02 kind=B bound=len<=6,n_in_[-1,len+1] unwind=9 solver=kissat tier=thorough@*/
 void h_shift_left_fwd_t(void) B_SHIFT_LEFT(6, a_shift_left_fwd)
-/*@GROUP name=shift_right props=C06,C02 kind=B bound=len<=4,n_in_[-1,len+1] unwind=6@*/
+/*@GROUP name=shift_right props=C06,C02 kind=B bound=len<=4,n_in_[-1,len+1] unwind=7 solver=kissat@*/
 void h_shift_right(void) B_SHIFT_RIGHT(4, a_shift_right, VF_KNOWN(C06_shift_right_first_lost, s > 0 && s < n && a_in[0] != 0); VF_KNOWN(C06_shift_right_zero_returns_last, s == 0 && n > 0))
-/*@GROUP name=shift_right_t props=C06,C02 kind=B bound=len<=6,n_in_[-1,len+1] unwind=8 tier=thorough@*/
+/*@GROUP name=shift_right_t props=C06,C02 kind=B bound=len<=6,n_in_[-1,len+1] unwind=9 solver=kissat tier=thorough@*/
 void h_shift_right_t(void) B_SHIFT_RIGHT(6, a_shift_right, VF_KNOWN(C06_shift_right_first_lost, s > 0 && s < n && a_in[0] != 0); VF_KNOWN(C06_shift_right_zero_returns_last, s == 0 && n > 0))
-/*@GROUP name=shift_right_bidi props=C06,C02 kind=B bound=len<=4,n_in_[-1,len+1] unwind=7@*/
+/*@GROUP name=shift_right_bidi props=C06,C02 kind=B bound=len<=4,n_in_[-1,len+1] unwind=7 solver=kissat@*/
 void h_shift_right_bidi(void) B_SHIFT_RIGHT(4, a_shift_right_bidi, VF_KNOWN(C06_shift_right_first_lost, s > 0 && s < n && a_in[0] != 0); VF_KNOWN(C06_shift_right_zero_returns_last, s == 0 && n > 0))
-/*@GROUP name=shift_right_bidi_t props=C06,C02 kind=B bound=len<=6,n_in_[-1,len+1] unwind=9 tier=thorough@*/
+/*@GROUP name=shift_right_bidi_t props=C06,C02 kind=B bound=len<=6,n_in_[-1,len+1] unwind=9 solver=kissat tier=thorough@*/
 void h_shift_right_bidi_t(void) B_SHIFT_RIGHT(6, a_shift_right_bidi, VF_KNOWN(C06_shift_right_first_lost, s > 0 && s < n && a_in[0] != 0); VF_KNOWN(C06_shift_right_zero_returns_last, s == 0 && n > 0))
-
-/*@GROUP name=partition props=C06,C02 kind=B bound=len<=4 unwind=6@*/
-void h_partition(void) B_PARTITION(4, a_partition)
-/*@GROUP name=partition_t props=C06,C02 kind=B bound=len<=6 unwind=8 tier=thorough@*/
-void h_partition_t(void) B_PARTITION(6, a_partition)
-/*@GROUP name=partition_fwd props=C06,C02 kind=B bound=len<=4 unwind=6@*/
-void h_partition_fwd(void) B_PARTITION(4, a_partition_fwd)
-/*@GROUP name=partition_fwd_t props=C06,C02 kind=B bound=len<=6 unwind=8 tier=thorough@*/
-void h_partition_fwd_t(void) B_PARTITION(6, a_partition_fwd)
-/*@GROUP name=stable_partition props=C06,C02 kind=B bound=len<=4 unwind=6@*/
+/*@GROUP name=partition props=C06,C02 kind=B bound=len<=4 unwind=7 solver=kissat@*/
+void h_partition(void) B_PARTITION(4, a_partition, 0, 1)
+/*@GROUP name=partition_t props=C06,C02 kind=B bound=len<=6 unwind=9 solver=kissat tier=thorough@*/
+void h_partition_t(void) B_PARTITION(6, a_partition, 0, 1)
+/*@GROUP name=partition_fwd props=C06,C02 kind=B bound=len<=4 unwind=7 solver=kissat@*/
+void h_partition_fwd(void) B_PARTITION(4, a_partition_fwd, 0, 1)
+/*@GROUP name=partition_fwd_t props=C06,C02 kind=B bound=len<=6 unwind=9 solver=kissat tier=thorough@*/
+void h_partition_fwd_t(void) B_PARTITION(6, a_partition_fwd, 0, 1)
+/*@GROUP name=partition_mod3 props=C06,C02 kind=B bound=len<=4,values_in_[-4,4] unwind=7 solver=kissat@*/
+void h_partition_mod3(void) B_PARTITION(4, a_partition, 2, 2)
+/*@GROUP name=partition_mod3_t props=C06,C02 kind=B bound=len<=6,values_in_[-4,4] unwind=9 solver=kissat tier=thorough@*/
+void h_partition_mod3_t(void) B_PARTITION(6, a_partition, 2, 2)
+/*@GROUP name=stable_partition props=C06,C02 kind=B bound=len<=4 unwind=7 solver=kissat@*/
 void h_stable_partition(void) B_STABLE_PARTITION(4)
-/*@GROUP name=stable_partition_t props=C06,C02 kind=B bound=len<=6 unwind=8 tier=thorough@*/
+/*@GROUP name=stable_partition_t props=C06,C02 kind=B bound=len<=6 unwind=9 solver=kissat tier=thorough@*/
 void h_stable_partition_t(void) B_STABLE_PARTITION(6)
-/*@GROUP name=partition_copy props=C06,C02 kind=B bound=len<=4 unwind=6@*/
+/*@GROUP name=partition_copy props=C06,C02 kind=B bound=len<=4 unwind=7 solver=kissat@*/
 void h_partition_copy(void) B_PARTITION_COPY(4)
-/*@GROUP name=partition_copy_t props=C06,C02 kind=B bound=len<=6 unwind=8 tier=thorough@*/
+/*@GROUP name=partition_copy_t props=C06,C02 kind=B bound=len<=6 unwind=9 solver=kissat tier=thorough@*/
 void h_partition_copy_t(void) B_PARTITION_COPY(6)
+/*@GROUP name=sort props=C06,C02 kind=B bound=len<=4 unwind=19 solver=kissat@*/
+void h_sort(void) B_SORT(4, a_sort, 0, 2)
+/*@GROUP name=sort_t props=C06,C02 kind=B bound=len<=6 unwind=39 solver=kissat tier=thorough@*/
+void h_sort_t(void) B_SORT(6, a_sort, 0, 2)
+/*@GROUP name=sort_mod3 props=C06,C02 kind=B bound=len<=4,values_in_[-4,4] unwind=19 solver=kissat@*/
+void h_sort_mod3(void) B_SORT(4, a_sort, 3, 3)
+/*@GROUP name=sort_mod3_t props=C06,C02 kind=B bound=len<=6,values_in_[-4,4] unwind=39 solver=kissat tier=thorough@*/
+void h_sort_mod3_t(void) B_SORT(6, a_sort, 3, 3)
+/*@GROUP name=gnome_sort props=C06,C02 kind=B bound=len<=4 unwind=19 solver=kissat@*/
+void h_gnome_sort(void) B_SORT(4, a_gnome_sort, 0, 2)
+/*@GROUP name=gnome_sort_t props=C06,C02 kind=B bound=len<=6 unwind=39 solver=kissat tier=thorough@*/
+void h_gnome_sort_t(void) B_SORT(6, a_gnome_sort, 0, 2)
+/*@GROUP name=gnome_sort_ra props=C06,C02 kind=B bound=len<=4 unwind=19 solver=kissat objbits=13@*/
+void h_gnome_sort_ra(void) B_SORT(4, a_gnome_sort_ra, 0, 2)
+/*@GROUP name=gnome_sort_ra_t props=C06,C02 kind=B bound=len<=6 unwind=39 solver=kissat tier=thorough@*/
+void h_gnome_sort_ra_t(void) B_SORT(6, a_gnome_sort_ra, 0, 2)
+/*@GROUP name=gnome_sort_bidi props=C06,C02 kind=B bound=len<=4 unwind=19 solver=kissat@*/
+void h_gnome_sort_bidi(void) B_SORT(4, a_gnome_sort_bidi, 0, 2)
+/*@GROUP name=gnome_sort_bidi_t props=C06,C02 kind=B bound=len<=6 unwind=39 solver=kissat tier=thorough@*/
+void h_gnome_sort_bidi_t(void) B_SORT(6, a_gnome_sort_bidi, 0, 2)
+/*@GROUP name=bubble_sort props=C06,C02 kind=B bound=len<=4 unwind=7 solver=kissat@*/
+void h_bubble_sort(void) B_SORT(4, a_bubble_sort, 0, 2)
+/*@GROUP name=bubble_sort_t props=C06,C02 kind=B bound=len<=6 unwind=9 solver=kissat tier=thorough@*/
+void h_bubble_sort_t(void) B_SORT(6, a_bubble_sort, 0, 2)
+/*@GROUP name=exchange_sort props=C06,C02 kind=B bound=len<=4 unwind=7 solver=kissat@*/
+void h_exchange_sort(void) B_SORT(4, a_exchange_sort, 0, 2)
+/*@GROUP name=exchange_sort_t props=C06,C02 kind=B bound=len<=6 unwind=9 solver=kissat tier=thorough@*/
+void h_exchange_sort_t(void) B_SORT(6, a_exchange_sort, 0, 2)
+/*@GROUP name=partial_sort props=C06,C02 kind=B bound=len<=4 unwind=19 solver=kissat@*/
+void h_partial_sort(void) B_PARTIAL_SORT(4, 0, 2)
+/*@GROUP name=partial_sort_t props=C06,C02 kind=B bound=len<=6 unwind=39 solver=kissat tier=thorough@*/
+void h_partial_sort_t(void) B_PARTIAL_SORT(6, 0, 2)
+/*@GROUP name=nth_element props=C06,C02 kind=B bound=len<=4 unwind=19 solver=kissat@*/
+void h_nth_element(void) B_NTH_ELEMENT(4, 0, 2)
+/*@GROUP name=nth_element_t props=C06,C02 kind=B bound=len<=6 unwind=39 solver=kissat tier=thorough@*/
+void h_nth_element_t(void) B_NTH_ELEMENT(6, 0, 2)
+/*@GROUP name=stable_sort props=C06,C02 kind=B bound=len<=4 unwind=7 solver=kissat@*/
+void h_stable_sort(void) B_STABLE_SORT(4, a_stable_sort, 0, 2)
+/*@GROUP name=stable_sort_t props=C06,C02 kind=B bound=len<=6 unwind=9 solver=kissat tier=thorough@*/
+void h_stable_sort_t(void) B_STABLE_SORT(6, a_stable_sort, 0, 2)
+/*@GROUP name=stable_sort_mod3 props=C06,C02 kind=B bound=len<=4,values_in_[-4,4] unwind=7 solver=kissat@*/
+void h_stable_sort_mod3(void) B_STABLE_SORT(4, a_stable_sort, 3, 3)
+/*@GROUP name=stable_sort_mod3_t props=C06,C02 kind=B bound=len<=6,values_in_[-4,4] unwind=9 solver=kissat tier=thorough@*/
+void h_stable_sort_mod3_t(void) B_STABLE_SORT(6, a_stable_sort, 3, 3)
+/*@GROUP name=insertion_sort props=C06,C02 kind=B bound=len<=4 unwind=7 solver=kissat@*/
+void h_insertion_sort(void) B_STABLE_SORT(4, a_insertion_sort, 0, 2)
+/*@GROUP name=insertion_sort_t props=C06,C02 kind=B bound=len<=6 unwind=9 solver=kissat tier=thorough@*/
+void h_insertion_sort_t(void) B_STABLE_SORT(6, a_insertion_sort, 0, 2)
+/*@GROUP name=merge_sort props=C06,C02 kind=B bound=len<=4 unwind=7 solver=kissat@*/
+void h_merge_sort(void) B_STABLE_SORT(4, a_merge_sort, 0, 2)
+/*@GROUP name=merge_sort_t props=C06,C02 kind=B bound=len<=6 unwind=9 solver=kissat tier=thorough@*/
+void h_merge_sort_t(void) B_STABLE_SORT(6, a_merge_sort, 0, 2)
+/*@GROUP name=stable_sort_int props=C06,C02 kind=B bound=len<=4 unwind=7 solver=kissat@*/
+void h_stable_sort_int(void) B_SORT_DEFAULT(4, a_stable_sort_int)
+/*@GROUP name=stable_sort_int_t props=C06,C02 kind=B bound=len<=6 unwind=9 solver=kissat tier=thorough@*/
+void h_stable_sort_int_t(void) B_SORT_DEFAULT(6, a_stable_sort_int)
+/*@GROUP name=insertion_sort_int props=C06,C02 kind=B bound=len<=4 unwind=7 solver=kissat@*/
+void h_insertion_sort_int(void) B_SORT_DEFAULT(4, a_insertion_sort_int)
+/*@GROUP name=insertion_sort_int_t props=C06,C02 kind=B bound=len<=6 unwind=9 solver=kissat tier=thorough@*/
+void h_insertion_sort_int_t(void) B_SORT_DEFAULT(6, a_insertion_sort_int)
+/*@GROUP name=merge_sort_int props=C06,C02 kind=B bound=len<=4 unwind=7 solver=kissat@*/
+void h_merge_sort_int(void) B_SORT_DEFAULT(4, a_merge_sort_int)
+/*@GROUP name=merge_sort_int_t props=C06,C02 kind=B bound=len<=6 unwind=9 solver=kissat tier=thorough@*/
+void h_merge_sort_int_t(void) B_SORT_DEFAULT(6, a_merge_sort_int)
+/*@GROUP name=is_permutation3 props=C06,C02 kind=B bound=len<=4 unwind=7 solver=kissat@*/
+void h_is_permutation3(void) B_IS_PERMUTATION3(4)
+/*@GROUP name=is_permutation3_t props=C06,C02 kind=B bound=len<=6 unwind=9 solver=kissat tier=thorough@*/
+void h_is_permutation3_t(void) B_IS_PERMUTATION3(6)
+/*@GROUP name=is_permutation4 props=C06,C02 kind=B bound=len<=4 unwind=7 solver=kissat@*/
+void h_is_permutation4(void) B_IS_PERMUTATION4(4, a_is_permutation4, (void)0)
+/*@GROUP name=is_permutation4_t props=C06,C02 kind=B bound=len<=6 unwind=9 solver=kissat tier=thorough@*/
+void h_is_permutation4_t(void) B_IS_PERMUTATION4(6, a_is_permutation4, (void)0)
+/*@GROUP name=is_permutation4_fwd props=C06,C02 kind=B bound=len<=4 unwind=7 solver=kissat@*/
+void h_is_permutation4_fwd(void) B_IS_PERMUTATION4(4, a_is_permutation4_fwd, (void)0)
+/*@GROUP name=is_permutation4_fwd_t props=C06,C02 kind=B bound=len<=6 unwind=9 solver=kissat tier=thorough@*/
+void h_is_permutation4_fwd_t(void) B_IS_PERMUTATION4(6, a_is_permutation4_fwd, (void)0)
+/*@GROUP name=search props=C06,C02 kind=B bound=len<=4,needle<=4 unwind=7 solver=kissat@*/
+void h_search(void) B_SEARCH(4, a_search, 0, 2)
+/*@GROUP name=search_t props=C06,C02 kind=B bound=len<=6,needle<=6 unwind=9 solver=kissat tier=thorough@*/
+void h_search_t(void) B_SEARCH(6, a_search, 0, 2)
+/*@GROUP name=search_fwd props=C06,C02 kind=B bound=len<=4,needle<=4 unwind=7 solver=kissat@*/
+void h_search_fwd(void) B_SEARCH(4, a_search_fwd, 0, 2)
+/*@GROUP name=search_fwd_t props=C06,C02 kind=B bound=len<=6,needle<=6 unwind=9 solver=kissat tier=thorough@*/
+void h_search_fwd_t(void) B_SEARCH(6, a_search_fwd, 0, 2)
+/*@GROUP name=find_end props=C06,C02 kind=B bound=len<=4,needle<=4 unwind=7 solver=kissat@*/
+void h_find_end(void) B_FIND_END(4, 0, 2)
+/*@GROUP name=find_end_t props=C06,C02 kind=B bound=len<=6,needle<=6 unwind=9 solver=kissat tier=thorough@*/
+void h_find_end_t(void) B_FIND_END(6, 0, 2)
+/*@GROUP name=search_n props=C06,C02 kind=B bound=len<=4,count_in_[-1,len+1] unwind=7 solver=kissat@*/
+void h_search_n(void) B_SEARCH_N(4, 0, 2, VF_KNOWN(C06_search_n_broken_run, s > 0 && idx < n && fm != idx))
+/*@GROUP name=search_n_t props=C06,C02 kind=B bound=len<=6,count_in_[-1,len+1] unwind=9 solver=kissat tier=thorough@*/
+void h_search_n_t(void) B_SEARCH_N(6, 0, 2, VF_KNOWN(C06_search_n_broken_run, s > 0 && idx < n && fm != idx))
+/*@GROUP name=find_first_of props=C06,C02 kind=B bound=len<=4,needle<=4 unwind=7 solver=kissat@*/
+void h_find_first_of(void) B_FIND_FIRST_OF(4, 0, 2)
+/*@GROUP name=find_first_of_t props=C06,C02 kind=B bound=len<=6,needle<=6 unwind=9 solver=kissat tier=thorough@*/
+void h_find_first_of_t(void) B_FIND_FIRST_OF(6, 0, 2)
+/*@GROUP name=includes props=C06,C02 kind=B bound=len1<=4,len2<=4 unwind=7 solver=kissat@*/
+void h_includes(void) B_INCLUDES(4, 0, 3)
+/*@GROUP name=includes_t props=C06,C02 kind=B bound=len1<=6,len2<=6 unwind=9 solver=kissat tier=thorough@*/
+void h_includes_t(void) B_INCLUDES(6, 0, 3)
+/*@GROUP name=merge props=C06,C02 kind=B bound=len1<=4,len2<=4 unwind=11 solver=kissat@*/
+void h_merge(void) B_MERGE(4, 0, 2)
+/*@GROUP name=merge_t props=C06,C02 kind=B bound=len1<=6,len2<=6 unwind=15 solver=kissat tier=thorough@*/
+void h_merge_t(void) B_MERGE(6, 0, 2)
+/*@GROUP name=merge_mod3 props=C06,C02 kind=B bound=len1<=4,len2<=4,values_in_[-4,4] unwind=11 solver=kissat@*/
+void h_merge_mod3(void) B_MERGE(4, 3, 3)
+/*@GROUP name=merge_mod3_t props=C06,C02 kind=B bound=len1<=6,len2<=6,values_in_[-4,4] unwind=15 solver=kissat tier=thorough@*/
+void h_merge_mod3_t(void) B_MERGE(6, 3, 3)
+/*@GROUP name=merge_int props=C06,C02 kind=B bound=len1<=4,len2<=4 unwind=11 solver=kissat@*/
+void h_merge_int(void) B_MERGE_INT(4, a_merge_int)
+/*@GROUP name=merge_int_t props=C06,C02 kind=B bound=len1<=6,len2<=6 unwind=15 solver=kissat tier=thorough@*/
+void h_merge_int_t(void) B_MERGE_INT(6, a_merge_int)
+/*@GROUP name=merge_fwd props=C06,C02 kind=B bound=len1<=4,len2<=4 unwind=11 solver=kissat@*/
+void h_merge_fwd(void) B_MERGE_INT(4, a_merge_fwd)
+/*@GROUP name=merge_fwd_t props=C06,C02 kind=B bound=len1<=6,len2<=6 unwind=15 solver=kissat tier=thorough@*/
+void h_merge_fwd_t(void) B_MERGE_INT(6, a_merge_fwd)
+/*@GROUP name=inplace_merge props=C06,C02 kind=B bound=len<=4 unwind=7 solver=kissat@*/
+void h_inplace_merge(void) B_INPLACE_MERGE(4, 0, 2)
+/*@GROUP name=inplace_merge_t props=C06,C02 kind=B bound=len<=6 unwind=9 solver=kissat tier=thorough@*/
+void h_inplace_merge_t(void) B_INPLACE_MERGE(6, 0, 2)
+/*@GROUP name=inplace_merge_int props=C06,C02 kind=B bound=len<=4 unwind=7 solver=kissat@*/
+void h_inplace_merge_int(void) B_INPLACE_MERGE_INT(4)
+/*@GROUP name=inplace_merge_int_t props=C06,C02 kind=B bound=len<=6 unwind=9 solver=kissat tier=thorough@*/
+void h_inplace_merge_int_t(void) B_INPLACE_MERGE_INT(6)
+/*@GROUP name=set_union props=C06,C02 kind=B bound=len1<=4,len2<=4 unwind=11 solver=kissat@*/
+void h_set_union(void) B_SETOP(4, OP_UNION, a_set_union, "set_union", 0, 2)
+/*@GROUP name=set_union_t props=C06,C02 kind=B bound=len1<=6,len2<=6 unwind=15 solver=kissat tier=thorough@*/
+void h_set_union_t(void) B_SETOP(6, OP_UNION, a_set_union, "set_union", 0, 2)
+/*@GROUP name=set_intersection props=C06,C02 kind=B bound=len1<=4,len2<=4 unwind=11 solver=kissat@*/
+void h_set_intersection(void) B_SETOP(4, OP_INTER, a_set_intersection, "set_intersection", 0, 2)
+/*@GROUP name=set_intersection_t props=C06,C02 kind=B bound=len1<=6,len2<=6 unwind=15 solver=kissat tier=thorough@*/
+void h_set_intersection_t(void) B_SETOP(6, OP_INTER, a_set_intersection, "set_intersection", 0, 2)
+/*@GROUP name=set_difference props=C06,C02 kind=B bound=len1<=4,len2<=4 unwind=11 solver=kissat@*/
+void h_set_difference(void) B_SETOP(4, OP_DIFF, a_set_difference, "set_difference", 0, 2)
+/*@GROUP name=set_difference_t props=C06,C02 kind=B bound=len1<=6,len2<=6 unwind=15 solver=kissat tier=thorough@*/
+void h_set_difference_t(void) B_SETOP(6, OP_DIFF, a_set_difference, "set_difference", 0, 2)
+/*@GROUP name=set_symmetric_difference props=C06,C02 kind=B bound=len1<=4,len2<=4 unwind=11 solver=kissat@*/
+void h_set_symmetric_difference(void) B_SETOP(4, OP_SYM, a_set_symmetric_difference, "set_symmetric_difference", 0, 2)
+/*@GROUP name=set_symmetric_difference_t props=C06,C02 kind=B bound=len1<=6,len2<=6 unwind=15 solver=kissat tier=thorough@*/
+void h_set_symmetric_difference_t(void) B_SETOP(6, OP_SYM, a_set_symmetric_difference, "set_symmetric_difference", 0, 2)
+/*@GROUP name=set_ops_mod3 props=C06,C02 kind=B bound=len1<=4,len2<=4,values_in_[-4,4] unwind=11 solver=kissat@*/
+void h_set_ops_mod3(void) B_SETOP(4, OP_SYM, a_set_symmetric_difference, "set_symmetric_difference", 3, 3)
+/*@GROUP name=set_ops_mod3_t props=C06,C02 kind=B bound=len1<=6,len2<=6,values_in_[-4,4] unwind=15 solver=kissat tier=thorough@*/
+void h_set_ops_mod3_t(void) B_SETOP(6, OP_SYM, a_set_symmetric_difference, "set_symmetric_difference", 3, 3)
+/*@GROUP name=set_ops_int props=C06,C02 kind=B bound=len1<=4,len2<=4 unwind=11 solver=kissat@*/
+void h_set_ops_int(void) B_SETOP_INT(4)
+/*@GROUP name=set_ops_int_t props=C06,C02 kind=B bound=len1<=6,len2<=6 unwind=15 solver=kissat tier=thorough@*/
+void h_set_ops_int_t(void) B_SETOP_INT(6)
+/*@GROUP name=transform_reduce props=C06,C02 kind=B bound=len<=4 unwind=7 solver=kissat@*/
+void h_transform_reduce(void) B_TRANSFORM_REDUCE(4)
+/*@GROUP name=transform_reduce_t props=C06,C02 kind=B bound=len<=6 unwind=9 solver=kissat tier=thorough@*/
+void h_transform_reduce_t(void) B_TRANSFORM_REDUCE(6)
